@@ -1,7 +1,7 @@
 (* C17: the tax summary does not depend on the order of the taxable rows.
    Part 1 - what a group's base is, in terms of the rows alone (a fold over the rows of its class in
    row order), hence invariant under permutation because the accumulator is commutative. *)
-From Coq Require Import ZArith QArith List Bool Lia Permutation.
+From Coq Require Import ZArith QArith List Bool Lia ZifyBool ZifyNat Permutation SetoidList SetoidPermutation Morphisms.
 From Verif Require Import Base.Wire Base.Rha Base.RhaProofs Num.Amount Num.AmountProofs Calc.Doc Calc.Calc
   Calc.PermProofs Calc.TaxProofs.
 Import ListNotations.
@@ -165,3 +165,272 @@ Proof.
   - apply Permutation_sym, Permutation_nil in PC. discriminate.
   - f_equal. apply fold_acc_rr_perm. exact PC.
 Qed.
+
+(* ================================================================================================ *)
+(* Part 2 - the rate groups of one category, as a list up to order                                  *)
+(* ================================================================================================ *)
+
+(* ---------------- the rates list of one category is a fold over the rows of that category ---------------- *)
+Definition cat_rates (code : bytes) (cts : list cat_total) : list rate_total :=
+  match find_cat code cts with Some ct => ct_rates ct | None => [] end.
+
+Definition pairs_of_tl (code : bytes) (tl : tax_line) : list (amount * combo) :=
+  map (fun cb => (tl_total tl, cb)) (filter (fun cb => eqb_bytes (cb_cat cb) code) (tl_taxes tl)).
+Definition pairs_of (code : bytes) (tls : list tax_line) : list (amount * combo) :=
+  flat_map (pairs_of_tl code) tls.
+
+Lemma cat_rates_add cr c tot cb code cts :
+  cat_rates code (add_to_cats cr c tot cb cts) =
+  if eqb_bytes (cb_cat cb) code then add_to_rates cr c tot cb (cat_rates code cts) else cat_rates code cts.
+Proof.
+  unfold cat_rates. induction cts as [|ct r IH]; cbn [add_to_cats find_cat].
+  - cbn [ct_with_rates new_ct ct_code ct_rates]. destruct (eqb_bytes (cb_cat cb) code); reflexivity.
+  - destruct (eqb_bytes (ct_code ct) (cb_cat cb)) eqn:E.
+    + apply eqb_bytes_eq in E. cbn [find_cat ct_with_rates ct_code]. rewrite <- E.
+      destruct (eqb_bytes (ct_code ct) code); reflexivity.
+    + cbn [find_cat]. destruct (eqb_bytes (ct_code ct) code) eqn:F.
+      * apply eqb_bytes_eq in F. apply eqb_bytes_neq in E.
+        assert (N : eqb_bytes (cb_cat cb) code = false) by (apply eqb_bytes_neq; congruence).
+        rewrite N. reflexivity.
+      * exact IH.
+Qed.
+
+Lemma cat_rates_add_tl cr c code tl cts :
+  cat_rates code (add_tl cr c cts tl) = fold_left (add_pair cr c) (pairs_of_tl code tl) (cat_rates code cts).
+Proof.
+  unfold add_tl, pairs_of_tl. generalize (tl_total tl) as tot. intros tot. revert cts.
+  induction (tl_taxes tl) as [|cb l IH]; intros cts; cbn [fold_left filter map].
+  - reflexivity.
+  - rewrite IH, cat_rates_add. destruct (eqb_bytes (cb_cat cb) code); cbn [map fold_left]; reflexivity.
+Qed.
+
+Lemma cat_rates_fold cr c code tls : forall cts,
+  cat_rates code (fold_left (add_tl cr c) tls cts) =
+  fold_left (add_pair cr c) (pairs_of code tls) (cat_rates code cts).
+Proof.
+  unfold pairs_of. induction tls as [|tl r IH]; intros cts; cbn [fold_left flat_map]; [reflexivity|].
+  rewrite IH, cat_rates_add_tl, fold_left_app. reflexivity.
+Qed.
+
+(* EXACT list equality: the groups of a category, in their order, are the fold over its rows *)
+Theorem cat_rates_base_totals cr c code tls :
+  cat_rates code (base_totals cr c tls) = fold_left (add_pair cr c) (pairs_of code tls) [].
+Proof. unfold base_totals. apply cat_rates_fold. Qed.
+
+(* presence of a category *)
+Definition has_cat (code : bytes) (cts : list cat_total) : bool :=
+  match find_cat code cts with Some _ => true | None => false end.
+Definition nonempty {A} (l : list A) : bool := match l with [] => false | _ => true end.
+
+Lemma nonempty_app {A} (l l' : list A) : nonempty (l ++ l') = nonempty l || nonempty l'.
+Proof. destruct l; reflexivity. Qed.
+Lemma nonempty_perm {A} (l l' : list A) : Permutation l l' -> nonempty l = nonempty l'.
+Proof.
+  intros P. destruct l as [|x l], l' as [|y l']; try reflexivity.
+  - apply Permutation_nil in P. discriminate.
+  - apply Permutation_sym, Permutation_nil in P. discriminate.
+Qed.
+
+Lemma has_cat_add cr c tot cb code cts :
+  has_cat code (add_to_cats cr c tot cb cts) = has_cat code cts || eqb_bytes (cb_cat cb) code.
+Proof.
+  unfold has_cat. induction cts as [|ct r IH]; cbn [add_to_cats find_cat].
+  - cbn [ct_with_rates new_ct ct_code]. destruct (eqb_bytes (cb_cat cb) code); reflexivity.
+  - destruct (eqb_bytes (ct_code ct) (cb_cat cb)) eqn:E.
+    + apply eqb_bytes_eq in E. cbn [find_cat ct_with_rates ct_code].
+      destruct (eqb_bytes (ct_code ct) code) eqn:F; [reflexivity|].
+      rewrite <- E, F, orb_false_r. reflexivity.
+    + cbn [find_cat]. destruct (eqb_bytes (ct_code ct) code) eqn:F; [reflexivity|exact IH].
+Qed.
+
+Lemma has_cat_add_tl cr c code tl cts :
+  has_cat code (add_tl cr c cts tl) = has_cat code cts || nonempty (pairs_of_tl code tl).
+Proof.
+  unfold add_tl, pairs_of_tl. generalize (tl_total tl) as tot. intros tot. revert cts.
+  induction (tl_taxes tl) as [|cb l IH]; intros cts; cbn [fold_left filter map].
+  - cbn [nonempty]. rewrite orb_false_r. reflexivity.
+  - rewrite IH, has_cat_add. destruct (eqb_bytes (cb_cat cb) code); cbn [map nonempty].
+    + rewrite !orb_true_r. reflexivity.
+    + rewrite orb_false_r. reflexivity.
+Qed.
+
+Lemma has_cat_fold cr c code tls : forall cts,
+  has_cat code (fold_left (add_tl cr c) tls cts) = has_cat code cts || nonempty (pairs_of code tls).
+Proof.
+  unfold pairs_of. induction tls as [|tl r IH]; intros cts; cbn [fold_left flat_map].
+  - cbn [nonempty]. rewrite orb_false_r. reflexivity.
+  - rewrite IH, has_cat_add_tl, nonempty_app, orb_assoc. reflexivity.
+Qed.
+
+Lemma has_cat_base_totals cr c code tls : has_cat code (base_totals cr c tls) = nonempty (pairs_of code tls).
+Proof. unfold base_totals. rewrite has_cat_fold. reflexivity. Qed.
+
+Theorem category_present_iff_rows cr c code tls :
+  find_cat code (base_totals cr c tls) <> None <-> pairs_of code tls <> [].
+Proof.
+  pose proof (has_cat_base_totals cr c code tls) as H. unfold has_cat in H.
+  destruct (find_cat code (base_totals cr c tls)), (pairs_of code tls); cbn [nonempty] in H; try discriminate;
+    split; congruence.
+Qed.
+
+Lemma pairs_of_perm code tls tls' : Permutation tls tls' -> Permutation (pairs_of code tls) (pairs_of code tls').
+Proof.
+  intros P. unfold pairs_of. induction P as [|x l l' _ IH|x y l|l l' l'' _ IH1 _ IH2]; cbn [flat_map].
+  - constructor.
+  - apply Permutation_app_head. exact IH.
+  - rewrite !app_assoc. apply Permutation_app_tail. apply Permutation_app_comm.
+  - eapply Permutation_trans; eauto.
+Qed.
+
+(* the base of the group a query combo falls into, in a given category, does not depend on row order *)
+Theorem group_base_in_category_independent_of_row_order cr c code q tls tls' :
+  Permutation tls tls' ->
+  option_map rt_base (find_group q (cat_rates code (base_totals cr c tls))) =
+  option_map rt_base (find_group q (cat_rates code (base_totals cr c tls'))).
+Proof.
+  intros P. rewrite !cat_rates_base_totals. apply group_base_independent_of_row_order, pairs_of_perm, P.
+Qed.
+
+Lemma find_cat_some code cts ct : find_cat code cts = Some ct -> In ct cts /\ ct_code ct = code.
+Proof.
+  induction cts as [|x r IH]; cbn [find_cat]; [discriminate|].
+  destruct (eqb_bytes (ct_code x) code) eqn:E.
+  - intros H. injection H as <-. apply eqb_bytes_eq in E. split; [left; reflexivity|exact E].
+  - intros H. destruct (IH H) as [I C]. split; [right; exact I|exact C].
+Qed.
+
+Lemma find_cat_nodup cts ct : NoDup (map ct_code cts) -> In ct cts -> find_cat (ct_code ct) cts = Some ct.
+Proof.
+  induction cts as [|x r IH]; intros N I; [destruct I|].
+  cbn [map] in N. inversion N as [|? ? N1 N2]; subst. cbn [find_cat].
+  destruct I as [->|I].
+  - rewrite eqb_bytes_refl. reflexivity.
+  - destruct (eqb_bytes (ct_code x) (ct_code ct)) eqn:E.
+    + apply eqb_bytes_eq in E. exfalso. apply N1. rewrite E. apply in_map. exact I.
+    + apply IH; assumption.
+Qed.
+
+(* ---------------- groups up to order ---------------- *)
+Lemma same_group_spec g h :
+  same_group g h = true <->
+  rt_ext g = rt_ext h /\ rt_country g = rt_country h /\ same_rate (rt_pct g) (rt_sur g) (rt_pct h) (rt_sur h).
+Proof. unfold same_group. rewrite rt_matches_spec. reflexivity. Qed.
+
+Lemma same_rate_refl p s : same_rate p s p s.
+Proof. unfold same_rate. destruct p; [|exact I]. split; [reflexivity|apply opt_eqQ_refl]. Qed.
+
+Lemma same_group_refl g : same_group g g = true.
+Proof. apply same_group_spec. repeat split. apply same_rate_refl. Qed.
+Lemma same_group_trans g h k : same_group g h = true -> same_group h k = true -> same_group g k = true.
+Proof.
+  rewrite !same_group_spec. intros (A1 & A2 & A3) (B1 & B2 & B3). repeat split; try congruence.
+  eapply same_rate_trans; eauto.
+Qed.
+(* a group takes exactly the combos its equals take *)
+Lemma matches_same_group g h q : same_group g h = true -> rt_matches h q = true -> rt_matches g q = true.
+Proof.
+  rewrite same_group_spec, !rt_matches_spec. intros (A1 & A2 & A3) (B1 & B2 & B3). repeat split; try congruence.
+  eapply same_rate_trans; eauto.
+Qed.
+
+(* same class (country, extensions, percentage and surcharge as rationals) and same figures; the
+   informational key and the TEXT of the percentage are those of the first row seen *)
+Definition geqv (g h : rate_total) : Prop :=
+  same_group g h = true /\ rt_base g = rt_base h /\ rt_amount g = rt_amount h /\ rt_suramount g = rt_suramount h.
+
+Global Instance geqv_equiv : Equivalence geqv.
+Proof.
+  split.
+  - intros g. unfold geqv. repeat split. apply same_group_refl.
+  - intros g h (A & B & C & D). unfold geqv. rewrite same_group_sym. repeat split; congruence.
+  - intros g h k (A & B & C & D) (A' & B' & C' & D'). unfold geqv. repeat split; try congruence.
+    eapply same_group_trans; eauto.
+Qed.
+
+Lemma distinct_NoDupA R : distinct_groups R -> NoDupA geqv R.
+Proof.
+  induction R as [|g r IH]; cbn [distinct_groups]; intros D; constructor.
+  - intros I. apply InA_alt in I. destruct I as (h & (S & _) & Ih).
+    destruct D as [F _]. rewrite Forall_forall in F. rewrite (F h Ih) in S. discriminate.
+  - apply IH, D.
+Qed.
+
+(* in a list of distinct groups, two members of the same class are the same member *)
+Lemma distinct_same_group_eq R g h :
+  distinct_groups R -> In g R -> In h R -> same_group h g = true -> h = g.
+Proof.
+  induction R as [|x r IH]; cbn [distinct_groups]; intros FD Ig Ih S; [destruct Ig|].
+  destruct FD as [F D]. rewrite Forall_forall in F. destruct Ig as [->|Ig], Ih as [->|Ih].
+  - reflexivity.
+  - rewrite same_group_sym, (F h Ih) in S. discriminate.
+  - rewrite (F g Ig) in S. discriminate.
+  - apply IH; assumption.
+Qed.
+
+Lemma fold_add_pair_distinct cr c ps : forall rts, distinct_groups rts -> distinct_groups (fold_left (add_pair cr c) ps rts).
+Proof.
+  induction ps as [|p ps IH]; intros rts D; cbn [fold_left]; [exact D|].
+  apply IH. unfold add_pair. apply add_to_rates_distinct, D.
+Qed.
+
+(* before the amounts are calculated they are all zero *)
+Definition fresh (c : nat) (g : rate_total) : Prop := rt_amount g = zero_of c /\ rt_suramount g = zero_of c.
+
+Lemma add_to_rates_fresh cr c tot cb rts : Forall (fresh c) rts -> Forall (fresh c) (add_to_rates cr c tot cb rts).
+Proof.
+  induction rts as [|rt r IH]; intros F; cbn [add_to_rates].
+  - constructor; [|constructor]. split; reflexivity.
+  - inversion F as [|? ? F1 F2]; subst. destruct (rt_matches rt cb); constructor; auto.
+Qed.
+Lemma fold_add_pair_fresh cr c ps : forall rts, Forall (fresh c) rts -> Forall (fresh c) (fold_left (add_pair cr c) ps rts).
+Proof.
+  induction ps as [|p ps IH]; intros rts D; cbn [fold_left]; [exact D|].
+  apply IH. unfold add_pair. apply add_to_rates_fresh, D.
+Qed.
+
+Lemma find_group_some q R g : find_group q R = Some g -> In g R /\ rt_matches g q = true.
+Proof. unfold find_group. apply find_some. Qed.
+
+Lemma find_group_in q R g : In g R -> rt_matches g q = true -> exists h, find_group q R = Some h.
+Proof.
+  intros I M. unfold find_group. destruct (find (fun g0 => rt_matches g0 q) R) as [h|] eqn:E; [eauto|].
+  pose proof (find_none _ _ E g I) as N. cbn beta in N. congruence.
+Qed.
+
+Lemma groups_sub cr c ps ps' : Permutation ps ps' ->
+  forall g, In g (fold_left (add_pair cr c) ps []) -> InA geqv g (fold_left (add_pair cr c) ps' []).
+Proof.
+  intros P g Ig.
+  set (R := fold_left (add_pair cr c) ps []) in *. set (R' := fold_left (add_pair cr c) ps' []).
+  assert (D : distinct_groups R) by (apply fold_add_pair_distinct; exact I).
+  assert (Fr : Forall (fresh c) R) by (apply fold_add_pair_fresh; constructor).
+  assert (Fr' : Forall (fresh c) R') by (apply fold_add_pair_fresh; constructor).
+  set (q := rt_combo [] g).
+  destruct (find_group_in q R g Ig (same_group_refl g)) as (h & Eh).
+  destruct (find_group_some _ _ _ Eh) as [Ih Mh].
+  assert (h = g) by (apply (distinct_same_group_eq R); assumption). subst h.
+  pose proof (group_base_independent_of_row_order cr c q ps ps' P) as B. fold R R' in B.
+  rewrite Eh in B. cbn [option_map] in B.
+  destruct (find_group q R') as [g'|] eqn:Eg'; cbn [option_map] in B; [|discriminate].
+  injection B as B. destruct (find_group_some _ _ _ Eg') as [Ig' Mg'].
+  apply InA_alt. exists g'. split; [|exact Ig'].
+  rewrite Forall_forall in Fr, Fr'. destruct (Fr g Ig) as [A1 A2]. destruct (Fr' g' Ig') as [B1 B2].
+  unfold geqv. rewrite same_group_sym. repeat split; try congruence. exact Mg'.
+Qed.
+
+Theorem groups_permA cr c ps ps' : Permutation ps ps' ->
+  PermutationA geqv (fold_left (add_pair cr c) ps []) (fold_left (add_pair cr c) ps' []).
+Proof.
+  intros P. apply NoDupA_equivlistA_PermutationA.
+  - exact geqv_equiv.
+  - apply distinct_NoDupA, fold_add_pair_distinct. exact I.
+  - apply distinct_NoDupA, fold_add_pair_distinct. exact I.
+  - intros x. split; intros Ix; apply InA_alt in Ix; destruct Ix as (g & E & Ig).
+    + apply (InA_eqA geqv_equiv (x := g)); [symmetry; exact E|]. apply (groups_sub cr c ps ps' P g Ig).
+    + apply (InA_eqA geqv_equiv (x := g)); [symmetry; exact E|].
+      apply (groups_sub cr c ps' ps (Permutation_sym P) g Ig).
+Qed.
+
+Theorem category_groups_independent_of_row_order cr c code tls tls' : Permutation tls tls' ->
+  PermutationA geqv (cat_rates code (base_totals cr c tls)) (cat_rates code (base_totals cr c tls')).
+Proof. intros P. rewrite !cat_rates_base_totals. apply groups_permA, pairs_of_perm, P. Qed.
